@@ -189,6 +189,23 @@ impl<T: InternalVertexInfo + super::sealed::__Sealed> VertexInfo for T {
                 .map(RequiredProperty::new)
         }));
 
+        // Tagged values of this vertex that are used inside a `@fold` (at any depth), or by a filter
+        // on the fold's count, are resolved when that fold is computed.
+        let properties = properties.chain(current_component.folds.values().flat_map(move |fold| {
+            let post_filter_tags = fold.post_filters.iter().filter_map(|f| match f.right() {
+                Some(Argument::Tag(field_ref)) => Some(field_ref),
+                _ => None,
+            });
+            fold.imported_tags.iter().chain(post_filter_tags).filter_map(move |field_ref| {
+                match field_ref {
+                    FieldRef::ContextField(ctx) if ctx.vertex_id == current_vertex.vid => {
+                        Some(RequiredProperty::new(ctx.field_name.clone()))
+                    }
+                    _ => None,
+                }
+            })
+        }));
+
         let mut seen_property = HashSet::new();
         Box::new(properties.filter(move |r| seen_property.insert(r.name.clone())))
     }
